@@ -1,6 +1,6 @@
 SPECIFICATION Spec
 CONSTANTS
-  Sel = {"esc", "dol1", "dol2", "til", "pg", "call", "mix"}
+  Sel = {"esc", "dol1", "dol2", "til", "pg", "call", "mix", "app"}
   N = 4
   N1 = 5
   N2 = 3
@@ -11,9 +11,10 @@ CONSTANTS
   AppName <- AppNameMC
   AppVersion <- AppVersionMC
   Starts <- StartsMC
+  RegOffer <- RegMC
   EnvGet <- EnvMC
   Obs <- ObsNone
 CONSTRAINT StoreBound
 INVARIANTS TypeOK OutputBounded NeverReadsPastEnd
-PROPERTIES SingleQuoteOpaque PrefixSuffixPreserved PutThenGet StoreChangesOnlyOnReturn
+PROPERTIES RegisterOnlyAppends SingleQuoteOpaque PrefixSuffixPreserved PutThenGet StoreChangesOnlyOnReturn
 CHECK_DEADLOCK FALSE
